@@ -37,6 +37,7 @@ var kindNames = map[string]error{
 }
 
 var txFinishedStates = []string{"rw-committed", "rw-rolledback", "rw-closed", "ro-closed", "ro-committed", "ro-rolledback"}
+
 // "new-freed-refetched": allocated and freed again in the running transaction,
 // handle obtained by another tx.Page(id) call afterwards
 var pageStates = []string{"clean", "loaded", "dirty", "new-empty", "new-dirty", "flushed", "freed", "new-freed-refetched"}
